@@ -430,6 +430,29 @@ def run_check(fn, prop):
         return 2
 
 
+def apalache_inductive(c, spec_dir, module, obligations, statement, timeout=600):
+    """Discharge proof obligations of an inductive invariant with Apalache (unbounded integers).  obligations: lists of
+    apalache-mc arguments.  A reported counterexample is a tool failure (the model or its invariant is wrong); running out of
+    time is recorded, not fatal."""
+    t0 = time.time()
+    ok, notes = 0, []
+    outdir = os.path.join(c.dir, "apalache_" + module)
+    for args in obligations:
+        r = sh(["timeout", str(timeout), "apalache-mc", "check", "--out-dir=" + outdir] + list(args) + [module + ".tla"], cwd=spec_dir, timeout=timeout + 60)
+        out = r.stdout or ""
+        if "The outcome is: NoError" in out:
+            ok += 1
+        elif "The outcome is: Error" in out:
+            raise ToolFailure("Apalache: %s %s is violated\n%s" % (module, " ".join(args), out[-2500:]))
+        else:
+            notes.append("%s: no verdict (rc=%s)" % (" ".join(args), r.returncode))
+    shutil.rmtree(outdir, ignore_errors=True)
+    c.cov.setdefault("apalache_inductive_invariants", []).append(
+        {"module": module, "obligations": len(obligations), "discharged": ok, "wall_s": round(time.time() - t0, 1), "statement": statement, "notes": notes})
+    log("Apalache %s: %d of %d obligations discharged, %.0fs" % (module, ok, len(obligations), time.time() - t0))
+    return ok == len(obligations)
+
+
 def read_ndjson(path):
     out = []
     with open(path) as f:
